@@ -44,6 +44,7 @@ def gen_cases(ctx):
             for k in [0] + ids:
                 profs[str(k)] = N.rand_profile(rng, base=base)
         yield {"deep": deep, "dup": (i % 3 == 1) and not deep and not hostile,
+               "orphan": (i % 2 == 0) and not deep and not hostile and nj >= 6,
                "ids": ids, "offsets": {str(k): rng.choice([0, 0, rng.randrange(0, 2000)]) for k in ids},
                "no_children": [k for k in ids if rng.random() < 0.15] if not deep else [],
                "cls": {str(k): rng.choice(["meshnm", "meshnm", "mesh"]) for k in ids},
@@ -119,7 +120,7 @@ def _run(ctx, case, net):
     # dynamic barriers: phase 2 starts when every joiner has returned from renew_address();
     # inside phases 2 and 3 the nodes act strictly one at a time ("turn")
     st = {"joined": 0, "turn2": 0, "turn3": 0, "done": 0}
-    end_cap = t0 + int((2.0 + T + 2.0) * 1e9) + len(order) * 4000 * W.MS + len(rel) * int((2 * T + 8.0) * 1e9)
+    end_cap = t0 + int((2.0 + T + 2.0) * 1e9) + len(order) * 4000 * W.MS + len(rel) * int((2 * T + 8.0) * 1e9) + int((2 * T + 12.0) * 1e9)
     applog = {k: joiners[k].applog for k in ids}
     world.horizon = end_cap + 10 * 1000 * W.MS
 
@@ -148,9 +149,15 @@ def _run(ctx, case, net):
             pump_until(nn, min(max(last + gap, wn.t + W.MS), t_cap))
         ctx.count("quiet_wait_capped")
 
+    mres = {}
+
     def master_app(nn):
         pump_while(nn, lambda: st["done"] < len(ids))
         pump_until(nn, nn.wnode.t + 30 * W.MS)
+        # the documented trivial answers of the master itself
+        mres["cc"] = net.call(nn, "check_connection", nn.obj.check_connection, deadline_ms=1000)
+        mres["renew"] = net.call(nn, "renew_address", nn.obj.renew_address, 0.05, deadline_ms=1000)
+        mres["addr"] = nn.obj.node_address
         world.stopping = True
 
     def joiner_app(nn, k):
@@ -193,6 +200,9 @@ def _run(ctx, case, net):
                                              master.obj.dhcp_dict.values() else 0o5554, deadline_ms=2000)
                 r["table_after_lookup"] = {a: b for a, b in master.obj.dhcp_dict.items() if a < 1000}
                 r["cc"] = net.call(nn, "check_connection", o.check_connection, deadline_ms=3000)
+                own_payload = bytes([k, k]) + b"to-myself"
+                r["send_self"] = (own_payload, net.call(nn, "send", o.send, k, "S", own_payload, deadline_ms=3000))
+                pump_until(nn, wn.t + 5 * W.MS)
                 r["sends"] = []
                 tab_now = master.obj.dhcp_dict
                 # targets on as many different levels as possible (deepest first)
@@ -257,6 +267,43 @@ def _run(ctx, case, net):
                 except W.VirtualDeadline:
                     r["phase3"] = "no return"
             st["turn3"] += 1
+        if case.get("orphan"):
+            # ---- phase 4: a relay gives its address up; its child asks whether it is still
+            # connected (its parent no longer answers: documented False), then both re-join
+            pump_while(nn, lambda: st["turn2"] < len(ids) or st["turn3"] < len(rel))
+            if order.index(k) == 0:
+                pump_until(nn, wn.t + 30 * W.MS)
+                wait_quiet(nn)
+                tab = {j: a for j, a in master.obj.dhcp_dict.items() if j in joiners and joiners[j].obj.node_address == a}
+                pick = None
+                for rj, ra in sorted(tab.items()):
+                    kids = [xj for xj, xa in tab.items() if xa != ra and net_ref.parent(xa) == ra]
+                    leaf_kids = [xj for xj in kids if not any(net_ref.is_descendant(v, tab[xj]) and v != tab[xj] for v in tab.values())]
+                    if leaf_kids:
+                        pick = (rj, leaf_kids[0])
+                        break
+                st["p4"] = pick
+                st["p4_stage"] = 0 if pick else 3
+            pump_while(nn, lambda: "p4_stage" not in st)
+            pick = st.get("p4")
+            try:
+                if pick and k == pick[0]:
+                    r["p4_release"] = net.call(nn, "release_address", o.release_address, deadline_ms=3000)
+                    pump_until(nn, wn.t + 30 * W.MS)
+                    st["p4_stage"] = 1
+                    pump_while(nn, lambda: st["p4_stage"] < 2)
+                    r["p4_rejoin"] = net.call(nn, "renew_address", o.renew_address, T, deadline_ms=(T + 2.5) * 1000)
+                    st["p4_stage"] = 3
+                elif pick and k == pick[1]:
+                    pump_while(nn, lambda: st["p4_stage"] < 1)
+                    wait_quiet(nn)
+                    r["p4_cc_orphan"] = net.call(nn, "check_connection", o.check_connection, 2, deadline_ms=3000)
+                    r["p4_rejoin"] = net.call(nn, "renew_address", o.renew_address, T, deadline_ms=(T + 2.5) * 1000)
+                    st["p4_stage"] = 2
+            except W.VirtualDeadline:
+                r["phase3"] = "no return"
+                st["p4_stage"] = 3
+            pump_while(nn, lambda: st["p4_stage"] < 3)
         st["done"] += 1
         pump_while(nn, lambda: not world.stopping)
 
@@ -292,6 +339,13 @@ def _run(ctx, case, net):
     if tinv["bad"]:
         ctx.violation("master-table-invariant", tinv["bad"], case)
         return
+    if mres:
+        ctx.clause("master_trivial_answers")
+        if mres.get("cc") is not True or mres.get("renew") != 0 or mres.get("addr") != 0:
+            ctx.violation("master-trivial-answers", "on the master check_connection() = %r (documented True), "
+                          "renew_address() = %r (0), node_address %s" % (mres.get("cc"), mres.get("renew"),
+                                                                          oct(mres.get("addr", 0))), case)
+            return
     # ---- the C13 clause seen in mesh traffic: a routed frame of an acknowledged type (65..191)
     # is answered with a NETWORK_ACK "back to the origin", i.e. to header.from_node - so a frame
     # the master originates (bytes never seen on the air before) must name the master there
@@ -395,6 +449,26 @@ def _run(ctx, case, net):
         if r.get("cc") is not True:
             ctx.violation("check_connection/false-when-connected", "ID %d at %s: check_connection() = %r"
                           % (k, oct(r["addr_after_join"]), r.get("cc")), case)
+            return
+        if "send_self" in r:
+            ctx.clause("mesh_send_arrives")
+            pl, ret = r["send_self"]
+            got = [e for e in applog[k] if e["msg"] == pl]
+            stray = [j for j in ids if j != k and any(e["msg"] == pl for e in applog[j])]
+            if ret is not True or len(got) != 1 or stray:
+                ctx.violation("mesh-send/own-id", "ID %d: send(node_id=own id) returned %r, arrived %d times in its own "
+                              "queue and at IDs %r" % (k, ret, len(got), stray), case)
+                return
+        if "p4_cc_orphan" in r:
+            ctx.clause("orphan_notices")
+            if r["p4_cc_orphan"] is not False or r.get("p4_rejoin") is None:
+                ctx.violation("check_connection/true-when-parent-gone", "ID %d: its parent released its address; "
+                              "check_connection() = %r (expected False), re-join -> %r"
+                              % (k, r["p4_cc_orphan"], r.get("p4_rejoin")), case)
+                return
+        if "p4_release" in r and (r["p4_release"] is not True or r.get("p4_rejoin") is None):
+            ctx.violation("rejoin-failed", "ID %d (a relay): release_address() = %r, re-join -> %r"
+                          % (k, r["p4_release"], r.get("p4_rejoin")), case)
             return
         for tgt, payload, ret in r.get("sends", []):
             ctx.clause("mesh_send_arrives")
